@@ -85,12 +85,18 @@ class Tree:
                 pre = _default_variable_prefix(concept)
                 i = 0
                 newvar = None
+                tried: Set[Variable] = set()
                 while newvar is None or newvar in used:
                     newvar = fmt.format(
                         prefix=pre,
                         i=i,
                         j='' if i == 0 else i + 1,
                     )
+                    if newvar in tried:
+                        raise ValueError(
+                            f'format does not yield distinct variables: {fmt!r}'
+                        )
+                    tried.add(newvar)
                     i += 1
                 used.add(newvar)
                 varmap[var] = newvar
